@@ -943,7 +943,13 @@ static ares_status_t process_answer(ares_channel_t      *channel,
   }
 
   server_set_good(server, query->using_tcp);
+  if (is_cached) {
+    ares_qcache_callback_begin(channel->qcache);
+  }
   end_query(channel, server, query, ARES_SUCCESS, rdnsrec);
+  if (is_cached) {
+    ares_qcache_callback_end(channel->qcache);
+  }
 
   status = ARES_SUCCESS;
 
